@@ -230,3 +230,20 @@ def exact_qp(t, gaps, w, lo, hi):
             continue
         return x
     return None
+
+
+def exception_from_code_under_test(ex):
+    """True when the deepest frame that belongs to either the harness (/verif) or labella is a labella frame"""
+    import os
+    import traceback
+
+    repo = os.path.realpath(os.environ.get("VERIF_REPO", "/repo"))
+    verif = os.path.realpath(os.path.dirname(os.path.dirname(os.path.abspath(__file__))))
+    last = None
+    for fr, _ in traceback.walk_tb(ex.__traceback__):
+        fn = os.path.realpath(fr.f_code.co_filename)
+        if fn.startswith(os.path.join(repo, "labella")):
+            last = "code"
+        elif fn.startswith(verif) and "/.deps/" not in fn:
+            last = "harness"
+    return last == "code"
